@@ -5,6 +5,7 @@ import (
 	"fmt"
 	"io"
 	"math"
+	mbig "math/big"
 	"sort"
 	"sync"
 	"testing/synctest"
@@ -405,9 +406,10 @@ func (sc *Scenario) judge(ems []em, exhausted, wire bool, st *stats) error {
 		}
 		if c > 1 {
 			dmin, dmax := v.deltas()
-			step := e.ts - last[e.idx]
-			if step < dmin || step > dmax {
-				return fmt.Errorf("%s: step: value %d went from timestamp %d to %d (step %d), configured delta [%d,%d]", where, e.idx, last[e.idx], e.ts, step, dmin, dmax)
+			// (decided without forming e.ts - last in int64: a difference that does
+			// not fit must not wrap into the allowed interval)
+			if !stepWithin(last[e.idx], e.ts, dmin, dmax) {
+				return fmt.Errorf("%s: step: value %d went from timestamp %d to %d (step %s), configured delta [%d,%d]", where, e.idx, last[e.idx], e.ts, bigDiff(e.ts, last[e.idx]), dmin, dmax)
 			}
 			switch {
 			case dmin < dmax:
@@ -493,7 +495,7 @@ func (sc *Scenario) judge(ems []em, exhausted, wire bool, st *stats) error {
 				_, dmax := v.deltas()
 				due := v.t0()
 				if cnt[i] > 0 {
-					due = last[i] + dmax
+					due = addSat(last[i], dmax)
 				}
 				if due < prevTS {
 					return fmt.Errorf("%s: repeat/order: value %d (%s/%s repeat %d) was emitted %d times, its next emission is due by timestamp %d, but the stream already reached %d", where, i, v.Kind, v.Dist, v.Repeat, cnt[i], due, prevTS)
@@ -503,6 +505,11 @@ func (sc *Scenario) judge(ems []em, exhausted, wire bool, st *stats) error {
 		}
 		if anyUnbounded {
 			st.label("clause-unbounded-keeps-emitting")
+		}
+		for i := range sc.Values {
+			if v := &sc.Values[i]; v.Repeat > longRepeat && cnt[i] > 1 {
+				st.label("clause-long-repeat-keeps-emitting")
+			}
 		}
 	}
 
@@ -541,6 +548,62 @@ func (sc *Scenario) judge(ems []em, exhausted, wire bool, st *stats) error {
 		}
 	}
 	return nil
+}
+
+// longRepeat: a bounded repeat count above it is never pulled to its end. Such
+// a value is treated like an unbounded one when the number of pulls is chosen
+// (a prefix is observed); the clauses are the same - it may not be emitted more
+// often than its count, and a source that reports exhaustion before the count
+// is reached violates "exactly as many times as its repeat count".
+const longRepeat = 1 << 16
+
+// openEnded: the value still has emissions to come when the pulled prefix ends.
+func (v *Val) openEnded() bool { return v.Repeat == 0 || v.Repeat > longRepeat }
+
+// addInt64 returns a+b and whether the sum is representable.
+func addInt64(a, b int64) (int64, bool) {
+	c := a + b
+	if (b > 0 && c < a) || (b < 0 && c > a) {
+		return 0, false
+	}
+	return c, true
+}
+
+// addSat is a+b, saturating at the int64 limits.
+func addSat(a, b int64) int64 {
+	c, ok := addInt64(a, b)
+	switch {
+	case ok:
+		return c
+	case b > 0:
+		return math.MaxInt64
+	}
+	return math.MinInt64
+}
+
+// stepWithin reports prev+dmin <= ts <= prev+dmax over the integers (a bound
+// that lies outside int64 is satisfied or violated by every int64 timestamp).
+func stepWithin(prev, ts, dmin, dmax int64) bool {
+	if lo, ok := addInt64(prev, dmin); ok {
+		if ts < lo {
+			return false
+		}
+	} else if dmin > 0 {
+		return false // the lower bound lies above MaxInt64
+	}
+	if hi, ok := addInt64(prev, dmax); ok {
+		if ts > hi {
+			return false
+		}
+	} else if dmax < 0 {
+		return false // the upper bound lies below MinInt64
+	}
+	return true
+}
+
+// bigDiff is a-b over the integers, for messages.
+func bigDiff(a, b int64) string {
+	return new(mbig.Int).Sub(mbig.NewInt(a), mbig.NewInt(b)).String()
 }
 
 func (v *Val) rangeString() string {
@@ -668,12 +731,14 @@ func run(sc *Scenario) (st *stats, err error) {
 			rejectable = true
 		}
 		switch {
-		case v.Repeat >= 1:
+		case v.Repeat >= 1 && !v.openEnded():
 			sumBounded += int(v.Repeat)
 			if v.Repeat > 1 {
 				st.boundedMany = true
 			}
 		default:
+			// unbounded, or a repeat count too long to be pulled to its end: the
+			// pulls below observe a prefix
 			anyUnbounded = true
 		}
 		if v.TS == nil {
@@ -695,6 +760,9 @@ func run(sc *Scenario) (st *stats, err error) {
 	}
 	st.nValues, st.nKinds = n, len(kinds)
 	budget := sumBounded + sc.Extra
+	if budget >= longRepeat {
+		return st, fmt.Errorf("harness: %d pulls planned, a value with a repeat count just above %d could end within them", budget, longRepeat)
+	}
 	if !docOK || rejectable {
 		st.label("input-hostile")
 	}
@@ -744,13 +812,14 @@ func run(sc *Scenario) (st *stats, err error) {
 		st.label("bounded-not-exhausted")
 	}
 	if anyUnbounded && len(a.seq) != budget {
-		return st, fmt.Errorf("queue: repeat: %d pulls yielded %d emissions although an unbounded value is configured", budget, len(a.seq))
+		return st, fmt.Errorf("queue: repeat: %d pulls yielded %d emissions although a value that is unbounded (or has a repeat count above %d) is configured", budget, len(a.seq), longRepeat)
 	}
 	if jerr := sc.judge(emsA, a.exhausted, false, st); jerr != nil {
 		return st, jerr
 	}
 	sc.shapeLabels(emsA, st)
 	sc.edgeLabels(st)
+	sc.numericLabels(emsA, st)
 	ov, col, inter := overlapOf(emsA, n)
 	st.overlap = ov
 	if ov {
